@@ -148,6 +148,7 @@ func (f *FragmentBuffer) pushHandshakeFragments(
 	buf []byte,
 	storeNew bool,
 ) (isHandshake, isRetransmit bool, err error) {
+	stored, repeated := false, false
 	for len(buf) != 0 {
 		frag := new(fragment)
 		if err := frag.handshakeHeader.Unmarshal(buf); err != nil {
@@ -213,8 +214,17 @@ func (f *FragmentBuffer) pushHandshakeFragments(
 			messageFragments.fragmentsLength += frag.handshakeHeader.FragmentLength
 			f.totalBufferSize += int(frag.handshakeHeader.FragmentLength)
 			f.totalFragmentCount++
+			stored = true
+		} else {
+			repeated = true
 		}
 		buf = buf[end:]
+	}
+
+	// A record that only repeats fragments already held for a message still
+	// being assembled brings nothing new either: the peer re-sent its flight.
+	if repeated && !stored {
+		isRetransmit = true
 	}
 
 	return true, isRetransmit, nil
